@@ -1,13 +1,15 @@
 CONSTANTS
+  Logs = {"X", "Y"}
+  Defect = "none"
   Certs = {"x1", "x2", "x3", "p1", "p2"}
   ChainOf <- MCChainOf
   NoCache = FALSE
   Cap = 0
   MaxTree = 5
   MaxFaults = 4
-  Depth = 30
+  Depth = 36
   Dialect = "postgresql"
 INIT Init
 NEXT SimNext
-INVARIANTS ExportFinished CacheSound CacheBounded FaultClasses
+INVARIANTS ExportFinished CacheSound CacheBounded FaultClasses AckedServable CacheStandsForStored
 CHECK_DEADLOCK FALSE
